@@ -342,8 +342,13 @@ let cmd_firstsets () =
       print_endline (run false ^ " # " ^ run true)
     | _ -> print_endline "BAD")
 
+(* sdt: hex action literal per line -> hex SDTVal *)
+let cmd_sdt () =
+  iter_lines (fun line -> print_endline (hex_encode (sdt_val (hex_decode (String.trim line)))))
+
 let () =
   match Array.to_list Sys.argv with
+  | _ :: "sdt" :: _ -> cmd_sdt ()
   | _ :: "firstsets" :: _ -> cmd_firstsets ()
   | _ :: "fscan" :: _ -> cmd_fscan ()
   | _ :: "bisim" :: args -> cmd_bisim args
